@@ -8,15 +8,14 @@ def c01TypeRegion (flags : List String) (generic : Bool) (t : Tree) : String :=
   let opt := flags.contains "-opt"
   let vis := visibleLeaves t
   let elig := specParams t
-  let camel := elig.map (fun l => Transfer.camelS l.info.name)
+  let camel := elig.map (fun l => paramName l.info.name)
   if !wfLevels t then "Out"
-  else if camel.any (fun n => goKeywords.contains n) then "F_keywordParam"
   else if !camel.Nodup then "F_paramCollision"
   else if opt && generic then "F_optGeneric"
   else if Ctor.region t != "WF" then "Out"
   else if !wfOnce t then "Out"
   else if !((vis.map (fun l => Transfer.pascalS l.info.name)).Nodup) then "Out"
-  else if !((vis.map (fun l => Transfer.camelS l.info.name)).Nodup) then "Out"
+  else if !((vis.map (fun l => paramName l.info.name)).Nodup) then "Out"
   else if vis.any (fun l => isExportedName l.info.name && l.info.name.contains '_') then "Out"
   else "WF"
 
